@@ -225,6 +225,7 @@ class ParseSemantics(object):
         ctx = self.ctx
         space = Space()
         ev = Evaluator(ctx, space)
+        ev.regex_on_tables = True  # a regex applied to the representative strings is evaluated row by row
         space.add("vec", tuple(self.R))
         space.add("field", tuple(self.F))
         st = ev.new_state()
